@@ -120,6 +120,42 @@ def replay_1d(sc):
     return bool(details), "; ".join(details[:3]) if details else "coupled coarse rates equal coarse rates on HEM/CGMY"
 
 
+def replay_levels(sc):
+    """drift / diffusion bookkeeping of the real CouplingMarkovChain over several successive levels (HEM, CGMY finite and infinite
+    variation): the coarse component carries the previous level's coefficients, the fine one the new level's, one set of Brownian variates"""
+    from collections import deque as _dq
+
+    levels = max(2, sc.get("levels", 2))
+    details = []
+    for name, model in concrete_models().items():
+        h = 0.2
+        axis = np.array([-2 * h, -h, 0.0, h, 2 * h])
+        grid = GS.CTMCGrid(h=h, origin_coordinate=2, axes=[axis.copy()])
+        cmc = CMC.CouplingMarkovChain(model, SamplingMethod.INVERSION, grid)
+        cmc.initialisation(StubProduct(times=TIMES))
+        for level in range(1, levels + 1):
+            sig_prev = cmc.fine_process.equivalent_diffusion_coefficient
+            drift_prev = cmc.fine_process.process_drift()
+            pms = [StubPathManager()]
+            cmc.next_level(mc_paths=0, path_managers=pms, product=StubProduct(times=TIMES))
+            sig_new = cmc.fine_process.equivalent_diffusion_coefficient
+            drift_new = cmc.fine_process.process_drift()
+            x0 = model.x0_value()
+            dp = pms[-1].deterministic_path(np.array([0.7]))
+            if abs(dp[1][0] - (x0 + drift_prev * 0.7)) > 1e-12 or abs(dp[0][0] - (x0 + drift_new * 0.7)) > 1e-12:
+                details.append(f"{name} level {level}: deterministic paths at t=0.7 (fine, coarse) = ({dp[0][0]!r}, {dp[1][0]!r}), expected "
+                               f"({x0 + drift_new * 0.7!r}, {x0 + drift_prev * 0.7!r})")
+            w = np.array([0.3, -1.1])
+            sq = np.array([0.5, 0.8])
+            cmc.fine_process._path_simulation._brownian_increments = _dq([w.copy()])
+            dfine, dcoarse = cmc._path_coupling_simulation.simulate_diffusion_with_coupling(sq)
+            incr = float(np.sum(sq * w))
+            if abs(dfine[-1] - sig_new * incr) > 1e-12 or abs(dcoarse[-1] - sig_prev * incr) > 1e-12:
+                details.append(f"{name} level {level}: diffusion parts (fine, coarse) = ({dfine[-1]!r}, {dcoarse[-1]!r}) for the Brownian sum {incr!r}; the level's fine "
+                               f"coefficient is {sig_new!r} and the previous level's is {sig_prev!r}")
+    return bool(details), "; ".join(details[:3]) if details else "coefficients follow the levels on HEM/CGMY"
+
+
 def h_1d(ctx, nl, nr, levels=1, fa=False, fv=True):
     axis, h, pivot = sym_axis(ctx, nl, nr)
     grid = make_grid(h, pivot, [axis])
@@ -199,22 +235,22 @@ def h_1d(ctx, nl, nr, levels=1, fa=False, fv=True):
             if j == cpiv:
                 continue
             ctx.prove("C03.coarse_rate_preserved.1d", SymBool(z3.simplify(total[j]) == V.term_of(q_c[j])), info=dict(info, level=level, state=j), replay=rp)
-        # drift and diffusion bookkeeping
-        ctx.prove("C03.coarse_diffusion_is_previous_fine", EQ(cmc.equivalent_diffusion_coefficient_coarse, sig_prev), info=info, replay=rp)
-        ctx.prove("C03.fine_diffusion_is_new_level", EQ(cmc.equivalent_diffusion_coefficient_fine, cmc.fine_process.equivalent_diffusion_coefficient), info=info)
+        # drift and diffusion bookkeeping, observed on what the simulation produces (not on the object's private attributes)
+        rpl = (replay_levels, lambda m: {"levels": levels})
         t = ctx.real("t", 0)
         dp = pms[-1].deterministic_path(np.array([t], dtype=object))
         x0 = model.x0_value()
-        ctx.prove("C03.coarse_deterministic_path_is_previous_level", EQ(dp[1][0], x0 + drift_prev * t), info=info, replay=rp)
-        ctx.prove("C03.fine_deterministic_path_is_new_level", EQ(dp[0][0], x0 + cmc.fine_process.process_drift() * t), info=info)
-        # same Brownian variates for both components
+        ctx.prove("C03.coarse_deterministic_path_is_previous_level", EQ(dp[1][0], x0 + drift_prev * t), info=info, replay=rpl)
+        ctx.prove("C03.fine_deterministic_path_is_new_level", EQ(dp[0][0], x0 + cmc.fine_process.process_drift() * t), info=info, replay=rpl)
+        # same Brownian variates for both components, scaled by the new level's / the previous level's diffusion coefficient
         w = np.array([ctx.real(f"w{k}") for k in range(2)], dtype=object)
         sq = np.array([ctx.real(f"sqdt{k}", 0) for k in range(2)], dtype=object)
         cmc.fine_process._path_simulation._brownian_increments = deque([w])
         dfine, dcoarse = sim.simulate_diffusion_with_coupling(sq)
-        sf, sc_ = cmc.equivalent_diffusion_coefficient_fine, cmc.equivalent_diffusion_coefficient_coarse
-        ctx.prove("C03.same_brownian_increments_drive_both", AND(EQ(dfine[1], sf * (sq[0] * w[0] + sq[1] * w[1])), EQ(dcoarse[1], sc_ * (sq[0] * w[0] + sq[1] * w[1])),
-                                                                 len(cmc.fine_process._path_simulation._brownian_increments) == 0), info=info)
+        incr = sq[0] * w[0] + sq[1] * w[1]
+        ctx.prove("C03.fine_diffusion_is_new_level", EQ(dfine[1], cmc.fine_process.equivalent_diffusion_coefficient * incr), info=info, replay=rpl)
+        ctx.prove("C03.coarse_diffusion_is_previous_fine", EQ(dcoarse[1], sig_prev * incr), info=info, replay=rpl)
+        ctx.prove("C03.same_brownian_increments_drive_both", len(cmc.fine_process._path_simulation._brownian_increments) == 0, info=info, replay=rpl)
 
 
 def _prove_ratio(ctx, oid, prob, rate, target, info, rp, regions=None, timeout_ms=None):
